@@ -213,6 +213,19 @@ class Plain:
     pass
 
 
+class Hostile:
+    """a value whose ==, hash and truth value raise: a filter must only look at its class"""
+
+    def __eq__(self, other):
+        raise KeyError("eq")
+
+    def __hash__(self):
+        raise KeyError("hash")
+
+    def __bool__(self):
+        raise KeyError("bool")
+
+
 ATTRS = {  # id -> (Attribute object, name, sig)
     "A.x": (attr.fields(FA).x, "x", "plain"),
     "A.y": (attr.fields(FA).y, "y", "plain"),
@@ -222,12 +235,12 @@ ATTRS = {  # id -> (Attribute object, name, sig)
     "D.x": (attr.fields(FD).x, "x", "typed"),       # != A.x (type=int, alias …)
 }
 TYPES = {"int": int, "bool": bool, "str": str, "NoneType": type(None), "float": float, "MyInt": MyInt, "object": object,
-         "FA": FA, "Plain": Plain, "type": type}
+         "FA": FA, "Plain": Plain, "type": type, "list": list, "Hostile": Hostile}
 VALUES = {  # id -> (value maker, exact class name)
     "1": (lambda: 1, "int"), "True": (lambda: True, "bool"), "'x'": (lambda: "x", "str"), "None": (lambda: None, "NoneType"),
     "1.0": (lambda: 1.0, "float"), "MyInt(1)": (lambda: MyInt(1), "MyInt"), "FA()": (lambda: FA(1, 2), "FA"),
     "object()": (lambda: object(), "object"), "Plain()": (lambda: Plain(), "Plain"), "int": (lambda: int, "type"),
-    "MyStr('y')": (lambda: MyStr("y"), "MyStr"),
+    "MyStr('y')": (lambda: MyStr("y"), "MyStr"), "[1]": (lambda: [1], "list"), "Hostile()": (lambda: Hostile(), "Hostile"),
 }
 NAMES = ["x", "y", "z", "", "X"]
 JUNK = {"1": lambda: 1, "None": lambda: None, "list": lambda: ["x"], "1.5": lambda: 1.5, "tuple": lambda: ("x",),
@@ -312,40 +325,92 @@ OPFN = {"eq": operator.eq, "ne": operator.ne, "lt": operator.lt, "le": operator.
 RHS = ["same", "sub", "otherType", "foreign"]
 
 
+class UExc(Exception):
+    pass
+
+
+class UKey(KeyError):
+    pass
+
+
+class UStop(StopIteration):
+    pass
+
+
+class UType(TypeError):
+    pass
+
+
+class UAttr(AttributeError):
+    pass
+
+
+class UValue(ValueError):
+    pass
+
+
+class UBase(BaseException):
+    pass
+
+
+EXC_CLASSES = {"Exception": UExc, "KeyError": UKey, "StopIteration": UStop, "TypeError": UType,
+               "AttributeError": UAttr, "ValueError": UValue, "BaseException": UBase}
+CALLS: list = []      # (slot, a, b) raw arguments of every call of a supplied function
+RAISED: list = []     # exception objects raised by supplied functions
+
+
+def make_rel(slot, rel, partial, exc_cls):
+    """instrumented supplied function: records the call; partial = raises on payloads of different classes"""
+    def fn(a, b):
+        CALLS.append((slot, a, b))
+        if rel == "boom" or (partial and type(a) is not type(b)):
+            e = exc_cls(slot)
+            RAISED.append(e)
+            raise e
+        return RELS[rel](a, b)
+
+    fn.__name__ = slot
+    return fn
+
+
 def _r(thunk):
     try:
         r = thunk()
-    except TypeError:
-        return "typeError"
-    except AttributeError:
-        return "attributeError"
-    except ValueError:
-        return "valueError"
-    except BaseException:  # noqa: BLE001
+    except BaseException as e:  # noqa: BLE001
+        if any(e is x for x in RAISED):
+            return "raised"
+        if isinstance(e, TypeError):
+            return "typeError"
+        if isinstance(e, AttributeError):
+            return "attributeError"
+        if isinstance(e, ValueError):
+            return "valueError"
         return "other"
     return "T" if r is True else "F" if r is False else "NI" if r is NotImplemented else "other"
 
 
 def c_observe(case):
     cfg = case.get("cfg", {})
-    kw = {s: RELS[case[s]] for s in SLOTS if case[s] is not None}
+    del CALLS[:], RAISED[:]
+    exc_cls = EXC_CLASSES[cfg.get("exc", "Exception")]
+    kw = {s: make_rel(s, case[s], case.get("partialFns", False), exc_cls) for s in SLOTS if case[s] is not None}
     if not (cfg.get("omit_rst") and case["requireSameType"]):
         kw["require_same_type"] = case["requireSameType"]
     if not (cfg.get("omit_name") and case["className"] == "Comparable"):
         kw["class_name"] = case["className"]
+    empty = {"name": "", "hashNone": False, "direct": [], "ops": [], "directCalls": [], "opCalls": []}
     try:
         cls = attr.cmp_using(**kw)
     except ValueError:
-        return {"ctor": "valueError", "name": "", "hashNone": False, "direct": [], "ops": []}
+        return dict(empty, ctor="valueError")
     except TypeError:
-        return {"ctor": "typeError", "name": "", "hashNone": False, "direct": [], "ops": []}
+        return dict(empty, ctor="typeError")
     except BaseException:  # noqa: BLE001
-        return {"ctor": "other", "name": "", "hashNone": False, "direct": [], "ops": []}
+        return dict(empty, ctor="other")
     a, b, rhs = case["a"], case["b"], case["rhs"]
     flip = cfg.get("flip")
-    xa = a
+    xa, yb = a, b
     if rhs == "same":
-        yb = b
         if flip:
             xa, yb = MyInt(a), MyInt(b)
     elif rhs == "sub":
@@ -358,17 +423,34 @@ def c_observe(case):
             xa, yb = float(a), b
     x = cls(xa)
     y = object() if rhs == "foreign" else cls(yb)
+    payloads = [xa] if rhs == "foreign" else [xa, yb]
+
+    def rv(v):
+        # the payload objects themselves must reach the function (no copies, no conversions)
+        return str(int(v)) + ("" if any(v is p for p in payloads) else "~copy")
+
+    def run(thunk):
+        del CALLS[:]
+        r = _r(thunk)
+        calls = [f"{s}({rv(p)},{rv(q)})" for s, p, q in CALLS]
+        del CALLS[:]
+        return r, calls
+
+    direct = [run(lambda op=op: getattr(cls, f"__{op}__")(x, y)) for op in OPS]
+    ops = [run(lambda op=op: OPFN[op](x, y)) for op in OPS]
+    del RAISED[:]
     return {
         "ctor": "ok", "name": cls.__name__, "hashNone": cls.__hash__ is None,
-        "direct": [_r(lambda op=op: getattr(cls, f"__{op}__")(x, y)) for op in OPS],
-        "ops": [_r(lambda op=op: OPFN[op](x, y)) for op in OPS],
+        "direct": [r for r, _ in direct], "ops": [r for r, _ in ops],
+        "directCalls": [c for _, c in direct], "opCalls": [c for _, c in ops],
     }
 
 
-def c_case(fns, rst, name, a, b, rhs, rng):
+def c_case(fns, rst, name, a, b, rhs, rng, partial=False):
     return {"kind": "cmp", **{s: fns.get(s) for s in SLOTS}, "requireSameType": rst, "className": name,
-            "a": a, "b": b, "rhs": rhs,
-            "cfg": {"flip": rng.random() < 0.3, "omit_rst": rng.random() < 0.5, "omit_name": rng.random() < 0.5}}
+            "a": a, "b": b, "rhs": rhs, "partialFns": partial,
+            "cfg": {"flip": rng.random() < 0.3, "omit_rst": rng.random() < 0.5, "omit_name": rng.random() < 0.5,
+                    "exc": rng.choice(list(EXC_CLASSES))}}
 
 
 PAIRS = [(0, 1), (1, 0), (1, 1), (-3, 2), (2, 2)]
@@ -376,15 +458,18 @@ PAIRS = [(0, 1), (1, 0), (1, 1), (-3, 2), (2, 2)]
 
 def c_gen(tier, rng):
     names = ["Comparable", "K", "EqOnly", "Comparable"]
-    # every subset, functions from the one standard order
+    # every subset, functions from the one standard order; total functions, and partial ones (raise on payloads of
+    # different classes) wherever the classes differ
     for mask in range(32):
         fns = {s: s for i, s in enumerate(SLOTS) if mask >> i & 1}
         for rst in (True, False):
             for rhs in RHS:
                 for a, b in PAIRS[:3] if tier == "quick" else PAIRS:
                     yield c_case(fns, rst, rng.choice(names), a, b, rhs, rng)
-    # inconsistent functions: each supplied slot computes an arbitrary relation
-    rels = list(RELS)
+                    if rhs != "same" and (a, b) != (1, 1):
+                        yield c_case(fns, rst, rng.choice(names), a, b, rhs, rng, partial=True)
+    # inconsistent functions: each supplied slot computes an arbitrary relation (or NotImplemented, or raises)
+    rels = list(RELS) + ["boom"]
     n = 6000 if tier == "quick" else 150000
     for _ in range(n):
         mask = rng.randrange(32)
@@ -395,7 +480,8 @@ def c_gen(tier, rng):
             if mask >> i & 1:
                 fns[s] = s if rng.random() < 0.5 else rng.choice(rels)
         a, b = rng.choice(PAIRS)
-        yield c_case(fns, rng.random() < 0.6, rng.choice(names), a, b, rng.choice(RHS + ["same", "sub"]), rng)
+        yield c_case(fns, rng.random() < 0.6, rng.choice(names), a, b, rng.choice(RHS + ["same", "sub"]), rng,
+                     partial=rng.random() < 0.3)
     if tier == "thorough":
         # one deviating slot at a time, exhaustively
         for mask in range(32):
@@ -408,13 +494,15 @@ def c_gen(tier, rng):
                     for rst in (True, False):
                         for rhs in RHS:
                             for a, b in PAIRS[:3]:
-                                yield c_case(fns, rst, "Comparable", a, b, rhs, rng)
+                                yield c_case(fns, rst, "Comparable", a, b, rhs, rng, partial=rng.random() < 0.25)
 
 
 def c_dist(case, obs):
     sup = [s for s in SLOTS if case[s] is not None]
     return {"cmp.n_supplied": len(sup), "cmp.consistent": all(case[s] == s for s in sup), "cmp.rhs": case["rhs"],
-            "cmp.require_same_type": case["requireSameType"],
+            "cmp.require_same_type": case["requireSameType"], "cmp.partial_fns": case.get("partialFns"),
+            "cmp.exc_class": case.get("cfg", {}).get("exc"),
+            "cmp.any_raised": "raised" in (obs.get("direct", []) if isinstance(obs, dict) else []),
             "cmp.ctor": obs.get("ctor") if isinstance(obs, dict) else "?"}
 
 
@@ -424,6 +512,8 @@ def c_shrink(case):
             yield dict(case, **{s: None})
             if case[s] != s:
                 yield dict(case, **{s: s})
+    if case.get("partialFns"):
+        yield dict(case, partialFns=False)
     if case["className"] != "Comparable":
         yield dict(case, className="Comparable")
     if case["rhs"] != "same":
@@ -439,4 +529,5 @@ def c_neighbours(case, rng):
         for rst in (True, False):
             for a, b in PAIRS[:3]:
                 yield dict(case, rhs=rhs, requireSameType=rst, a=a, b=b)
+                yield dict(case, rhs=rhs, requireSameType=rst, a=a, b=b, partialFns=not case.get("partialFns"))
     yield from c_shrink(case)
